@@ -584,6 +584,9 @@ class Server(BaseComponent):
         if sock in self.__starttls:
             self.__starttls.remove(sock)
 
+        if sock in self._closeq:
+            self._closeq.remove(sock)
+
         with contextlib.suppress(OSError):
             sock.shutdown(2)
         with contextlib.suppress(OSError):
